@@ -12,6 +12,7 @@ from common import ModelError, R, Rmat, flmat, max_rel_err
 from common import wiring_pre_build as pre_build  # noqa: E402,F401
 
 LEAN_MODULES = ["PyomaVerif.Props.C03", "PyomaVerif.Props.C01", "PyomaVerif.Props.WiringRun", "PyomaVerif.Props.C03C11", "PyomaVerif.Props.C03E2E", "PyomaVerif.Props.C03Stored", "PyomaVerif.Props.WiringClass", "PyomaVerif.Props.WiringCalls", "PyomaVerif.Props.C03Split", "PyomaVerif.Mutants.MsGather", "PyomaVerif.Props.C03Excite", "PyomaVerif.Props.C01Excite", "PyomaVerif.Props.C03Table", "PyomaVerif.Props.C03Whole", "PyomaVerif.Props.WiringMs"]
+LEAN_MODULES = ["PyomaVerif.Props.C03", "PyomaVerif.Props.C01", "PyomaVerif.Props.WiringRun", "PyomaVerif.Props.C03C11", "PyomaVerif.Props.C03E2E", "PyomaVerif.Props.C03Stored", "PyomaVerif.Props.WiringClass", "PyomaVerif.Props.WiringCalls", "PyomaVerif.Props.C03Split", "PyomaVerif.Mutants.MsGather", "PyomaVerif.Props.C03Excite", "PyomaVerif.Props.C01Excite", "PyomaVerif.Props.C03Table", "PyomaVerif.Props.C03StoredTable"]
 THEOREMS = [
     # the split composed with the identification: user's datasets + ref_ind -> pre_multisetup -> what SSI_multi_setup hands to
     # build_hank -> C03_e2e_* (Props/C03Split.lean, Lemmas/MsGather.lean, Model/MsGather.lean); "after every preprocessing step"
@@ -91,6 +92,12 @@ THEOREMS = [
     "PV.realisation_similar",
     # depth round (audit C03 gap 3): the multi-setup conclusion composed with the hard criteria -> the STORED tables
     "PV.C03Stored.C03_stored",
+    # multi-setup pole table (ssiPoles on the lists of SSI_multi_setup) joined with the stored tables; no OrderFilled hypothesis
+    "PV.C03Table.C03_e2e_table",
+    "PV.C03Table.C03_columnFilled",
+    "PV.C03StoredTable.C03_stored_table",
+    "PV.C03StoredTable.C03_e2e_cov_stored_table",
+    "PV.C03StoredTable.C03_e2e_dat_stored_table",
     "PV.C03Stored.Ex.stored",
     # depth round 2 (delta audit gap 4): ssi.SSI_multi_setup as ONE executed function (Model/MultiSetup.lean, op
     # ssi_multi_setup, stream ssi.SSI_multi_setup[whole]) and the class literals
